@@ -1,14 +1,25 @@
 package c12
 
 import (
+	"context"
 	"fmt"
 	"math/big"
 	"net"
+	"net/netip"
+	"strconv"
+	"strings"
 	"testing"
+	"testing/synctest"
+	"time"
+
+	metav1 "k8s.io/apimachinery/pkg/apis/meta/v1"
+	"sigs.k8s.io/controller-runtime/pkg/client"
+	"sigs.k8s.io/controller-runtime/pkg/client/fake"
 
 	"verifharness/hx"
 
 	terwaydaemon "github.com/AliyunContainerService/terway/daemon"
+	networkv1beta1 "github.com/AliyunContainerService/terway/pkg/apis/network.alibabacloud.com/v1beta1"
 	podENITypes "github.com/AliyunContainerService/terway/pkg/apis/network.alibabacloud.com/v1beta1"
 	"github.com/AliyunContainerService/terway/pkg/eni"
 	"github.com/AliyunContainerService/terway/rpc"
@@ -119,6 +130,38 @@ func eval(in []*big.Int) []*big.Int {
 			}
 			o.I(ifCode(c.IfName)).Bool(c.DefaultRoute).Bool(c.ENIInfo.Trunk).I(int(c.ENIInfo.Vid))
 		}
+	case 5:
+		// the node-local pool's answer (LocalIPResource.ToRPC): a copy of what the interface and the address carry
+		h4, i4, n4, p4, g4 := d.Bool(), d.Big(), d.Big(), d.Int(), d.Big()
+		h6, i6, n6, p6, g6 := d.Bool(), d.Big(), d.Big(), d.Int(), d.Big()
+		s4, s6, erdma := d.Bool(), d.Bool(), d.Bool() // the interface has a subnet of the family (dual-stack interface, single-stack pod)
+		if d.Bad {
+			return nil
+		}
+		res := &eni.LocalIPResource{PodID: "ns/p1"}
+		res.ENI.ID, res.ENI.ERdma = "eni-1", erdma
+		if h4 {
+			res.IP.IPv4 = netip.MustParseAddr(ipStr(i4, 32))
+		}
+		if h6 {
+			res.IP.IPv6 = netip.MustParseAddr(ipStr(i6, 128))
+		}
+		if h4 || s4 {
+			res.ENI.VSwitchCIDR.IPv4 = &net.IPNet{IP: net.ParseIP(ipStr(n4, 32)), Mask: net.CIDRMask(p4, 32)}
+			res.ENI.GatewayIP.IPv4 = net.ParseIP(ipStr(g4, 32))
+		}
+		if h6 || s6 {
+			res.ENI.VSwitchCIDR.IPv6 = &net.IPNet{IP: net.ParseIP(ipStr(n6, 128)), Mask: net.CIDRMask(p6, 128)}
+			res.ENI.GatewayIP.IPv6 = net.ParseIP(ipStr(g6, 128))
+		}
+		ncs := res.ToRPC()
+		o.I(len(ncs))
+		for _, c := range ncs {
+			putConf(&o, c)
+		}
+		return o.L
+	case 6:
+		return evalCRD(d)
 	default:
 		return nil
 	}
@@ -127,6 +170,140 @@ func eval(in []*big.Int) []*big.Int {
 	}
 	return o.L
 }
+
+// putConf: one NetConf as numbers: per family (has address, address, has subnet, subnet base as written, prefix length,
+// has gateway, gateway), the interface's own gateway (IPv4), interface name, default route, trunk, erdma
+func putConf(o *hx.B, c *rpc.NetConf) {
+	bi := c.BasicInfo
+	fam := func(ip, cidr, gw string, w int) {
+		o.Bool(ip != "")
+		if ip != "" {
+			o.Big(ipNum(ip, w))
+		} else {
+			o.I(0)
+		}
+		if cidr != "" {
+			base, ones := cidr, -1
+			if i := strings.IndexByte(cidr, '/'); i >= 0 {
+				base = cidr[:i]
+				ones, _ = strconv.Atoi(cidr[i+1:])
+			}
+			o.I(1).Big(ipNum(base, w)).I(ones)
+		} else {
+			o.I(0, 0, 0)
+		}
+		o.Bool(gw != "")
+		if gw != "" {
+			o.Big(ipNum(gw, w))
+		} else {
+			o.I(0)
+		}
+	}
+	fam(bi.GetPodIP().GetIPv4(), bi.GetPodCIDR().GetIPv4(), bi.GetGatewayIP().GetIPv4(), 32)
+	fam(bi.GetPodIP().GetIPv6(), bi.GetPodCIDR().GetIPv6(), bi.GetGatewayIP().GetIPv6(), 128)
+	eg := c.GetENIInfo().GetGatewayIP().GetIPv4()
+	o.Bool(eg != "")
+	if eg != "" {
+		o.Big(ipNum(eg, 32))
+	} else {
+		o.I(0)
+	}
+	o.I(ifCode(c.IfName)).Bool(c.DefaultRoute).Bool(c.GetENIInfo().GetTrunk()).Bool(c.GetENIInfo().GetERDMA())
+}
+
+// evalCRD: the daemon's side of the cluster IPAM (CRDV2.multiIP): the address the controller bound to the pod in the Node
+// record, with the subnet and the gateway derived from the interface's CIDR.
+// input: erdmaNode nENI (status mode net4 plen4 net6 plen6 n4 (addr status podMatches uidMode)* n6 (...)*)*
+//
+//	status 1 InUse else Attaching; mode 1 high performance; entry status 1 Valid else Deleting; uidMode 0 none 1 the pod's 2 another
+func evalCRD(d *hx.D) []*big.Int {
+	var o hx.B
+	erdmaNode, ne := d.Bool(), d.Int()
+	node := &networkv1beta1.Node{ObjectMeta: metav1.ObjectMeta{Name: "node-1"}}
+	node.Spec.ENISpec = &networkv1beta1.ENISpec{EnableERDMA: erdmaNode, EnableIPv4: true, EnableIPv6: true}
+	node.Status.NetworkInterfaces = map[string]*networkv1beta1.NetworkInterface{}
+	for e := 1; e <= ne; e++ {
+		st, mode := d.Int(), d.Int()
+		n4, p4, n6, p6 := d.Big(), d.Int(), d.Big(), d.Int()
+		ni := &networkv1beta1.NetworkInterface{ID: fmt.Sprintf("eni-%d", e), Status: "Attaching", MacAddress: fmt.Sprintf("02:00:00:00:00:%02x", e), VSwitchID: "vsw-1",
+			NetworkInterfaceType: networkv1beta1.ENITypeSecondary, NetworkInterfaceTrafficMode: networkv1beta1.NetworkInterfaceTrafficModeStandard,
+			IPv4: map[string]*networkv1beta1.IP{}, IPv6: map[string]*networkv1beta1.IP{}}
+		if st == 1 {
+			ni.Status = "InUse"
+		}
+		if mode == 1 {
+			ni.NetworkInterfaceTrafficMode = networkv1beta1.NetworkInterfaceTrafficModeHighPerformance
+		}
+		if p4 >= 0 {
+			ni.IPv4CIDR = fmt.Sprintf("%s/%d", ipStr(n4, 32), p4)
+		}
+		if p6 >= 0 {
+			ni.IPv6CIDR = fmt.Sprintf("%s/%d", ipStr(n6, 128), p6)
+		}
+		for f, w := range []int{32, 128} {
+			k := d.Int()
+			for j := 0; j < k; j++ {
+				a, ist, pm, um := d.Big(), d.Int(), d.Bool(), d.Int()
+				ip := &networkv1beta1.IP{IP: ipStr(a, w), Status: networkv1beta1.IPStatusDeleting}
+				if ist == 1 {
+					ip.Status = networkv1beta1.IPStatusValid
+				}
+				if pm {
+					ip.PodID = "ns/p1"
+				} else if j%2 == 1 {
+					ip.PodID = "ns/other"
+				}
+				switch um {
+				case 1:
+					ip.PodUID = "uid-1"
+				case 2:
+					ip.PodUID = "uid-9"
+				}
+				if f == 0 {
+					ni.IPv4[ip.IP] = ip
+				} else {
+					ni.IPv6[ip.IP] = ip
+				}
+			}
+		}
+		node.Status.NetworkInterfaces[ni.ID] = ni
+	}
+	if d.Bad {
+		return nil
+	}
+	var resp *eni.AllocResp
+	crdRunner(func(t *testing.T) {
+		cl := fake.NewClientBuilder().WithScheme(types.Scheme).WithObjects(node).WithStatusSubresource(&networkv1beta1.Node{}).Build()
+		cur := &networkv1beta1.Node{}
+		_ = cl.Get(context.Background(), client.ObjectKey{Name: "node-1"}, cur)
+		cur.Status = node.Status
+		_ = cl.Status().Update(context.Background(), cur)
+		ctx, cancel := context.WithTimeout(context.Background(), 10*time.Minute)
+		defer cancel()
+		resp = eni.VerifCRDV2MultiIP(ctx, cl, "node-1", &daemon.CNI{PodName: "p1", PodNamespace: "ns", PodID: "ns/p1", PodUID: "uid-1"})
+	})
+	if resp == nil || resp.Err != nil || len(resp.NetworkConfigs) == 0 {
+		return o.I(0).L
+	}
+	o.I(1)
+	for _, r := range resp.NetworkConfigs {
+		lr, ok := r.(*eni.LocalIPResource)
+		if !ok {
+			return o.I(-1).L
+		}
+		var e int
+		fmt.Sscanf(lr.ENI.ID, "eni-%d", &e)
+		o.I(e)
+		ncs := lr.ToRPC()
+		if len(ncs) != 1 {
+			return o.I(-2).L
+		}
+		putConf(&o, ncs[0])
+	}
+	return o.L
+}
+
+var crdRunner func(f func(t *testing.T))
 
 func randNet(r *hx.Rand, w int) (net_, ip *big.Int, plen int) {
 	plen = r.Range(w/4, w)
@@ -209,7 +386,97 @@ func gen(r *hx.Rand) [][]*big.Int {
 		}
 		cs = append(cs, b.L)
 	}
+	r3 := r.Fork()
+	for i := 0; i < n/3; i++ { // the node-local pool's answer
+		stack := r3.Intn(3)
+		n4, i4, p4 := randNet(r3, 32)
+		n6, i6, p6 := randNet(r3, 128)
+		_, g4, _ := randNet(r3, 32)
+		_, g6, _ := randNet(r3, 128)
+		var b hx.B
+		b.I(5).Bool(stack != 1).Big(i4).Big(n4).I(p4).Big(g4).Bool(stack != 0).Big(i6).Big(n6).I(p6).Big(g6)
+		b.Bool(r3.Chance(1, 3)).Bool(r3.Chance(1, 3)).Bool(r3.Chance(1, 5))
+		cs = append(cs, b.L)
+	}
+	for i := 0; i < n/2; i++ { // the daemon's side of the cluster IPAM
+		cs = append(cs, genCRD(r3))
+	}
 	return cs
+}
+
+// genCRD: a Node record of 1..3 interfaces; at most one entry per family is bound to the pod (valid, the pod's name, no other uid),
+// both on one interface; the others are idle, belong to other pods, carry another uid, are being deleted, or sit on an interface
+// that is not attached yet
+func genCRD(r *hx.Rand) []*big.Int {
+	var b hx.B
+	ne := r.Range(1, 3)
+	b.I(6).Bool(r.Chance(1, 4)).I(ne)
+	home := r.Range(1, ne)
+	stack := r.Intn(4) // 0 v4, 1 v6, 2 dual, 3 nothing bound
+	for e := 1; e <= ne; e++ {
+		n4, _, p4 := randNet(r, 32)
+		n6, _, p6 := randNet(r, 128)
+		if r.Chance(1, 30) {
+			p4 = -1
+		}
+		if r.Chance(1, 30) {
+			p6 = -1
+		}
+		st := 1
+		if e != home && r.Chance(1, 3) || e == home && r.Chance(1, 15) {
+			st = 0
+		}
+		b.I(st, b2i(r.Chance(1, 4))).Big(n4).I(p4).Big(n6).I(p6)
+		for f, w := range []int{32, 128} {
+			plen, base := p4, n4
+			if f == 1 {
+				plen, base = p6, n6
+			}
+			if plen < 0 {
+				plen = w - 4
+			}
+			k := r.Range(0, 3)
+			seen := map[string]bool{}
+			bound := -1
+			if e == home && (stack == 2 || stack == f) && k > 0 {
+				bound = r.Intn(k)
+			}
+			b.I(k)
+			hb := uint(w - plen)
+			netb := new(big.Int).Rsh(base, hb)
+			netb.Lsh(netb, hb)
+			for j := 0; j < k; j++ {
+				host := r.Big(w - plen)
+				if r.Chance(1, 4) { // near the end of the subnet: the reserved addresses
+					host = new(big.Int).Sub(new(big.Int).Lsh(big.NewInt(1), hb), big.NewInt(int64(r.Range(1, 4))))
+					if host.Sign() < 0 {
+						host.SetInt64(0)
+					}
+				}
+				a := new(big.Int).Or(netb, host)
+				for seen[a.String()] { // the record keys entries by address
+					a.Xor(a, big.NewInt(int64(1+r.Intn(6))))
+				}
+				seen[a.String()] = true
+				if j == bound {
+					b.Big(a).I(1, 1, r.Intn(2))
+				} else {
+					// not bound to this pod: idle, another pod's, this name under another uid, or being deleted
+					switch r.Intn(4) {
+					case 0:
+						b.Big(a).I(1, 0, 0)
+					case 1:
+						b.Big(a).I(1, 0, 2)
+					case 2:
+						b.Big(a).I(1, 1, 2)
+					default:
+						b.Big(a).I(2, 1, r.Intn(2))
+					}
+				}
+			}
+		}
+	}
+	return b.L
 }
 
 func b2i(b bool) int {
@@ -219,4 +486,7 @@ func b2i(b bool) int {
 	return 0
 }
 
-func TestVerif_C12(t *testing.T) { hx.Run(t, gen, eval) }
+func TestVerif_C12(t *testing.T) {
+	crdRunner = func(f func(t *testing.T)) { t.Run("crd", func(t *testing.T) { synctest.Test(t, f) }) }
+	hx.Run(t, gen, eval)
+}
